@@ -54,7 +54,7 @@ func (a ActSpec) Pure() bool {
 
 type ChecksSpec struct {
 	Actions []ActSpec `json:"a"`
-	Delay   int       `json:"d,omitempty"` // seconds, continuous checks only
+	Delay   int       `json:"d,omitempty"` // seconds, continuous checks only (0 = 2 s, negative = really unset)
 }
 
 type SeqSpec struct {
@@ -285,6 +285,9 @@ func buildChecks(c *ChecksSpec, path string, reg func(ObjInfo, any), base ObjInf
 	delay := c.Delay
 	if group == "cont" && delay == 0 {
 		delay = 2
+	}
+	if delay < 0 {
+		delay = 0 // the caller left Delay unset: the engine then re-runs the check as fast as it can (1 ns ticker)
 	}
 	ch := &workflow.Checks{Delay: time.Duration(delay) * time.Second}
 	ci := base
